@@ -45,7 +45,7 @@ pub fn format_commit_line_with_osc8_commit_hyperlink<'a>(
     // Given matches in a line, m = matches[0] and pos = 0: store line[pos..m.start()] first, then
     // store the T(line[m.start()..m.end()]) match transformation, then set pos = m.end().
     // Repeat for matches[1..]. Finally, store line[pos..].
-    struct HyperlinkCommits<T>(T)
+    struct HyperlinkCommits<T>(T, Vec<(usize, usize)>)
     where
         T: Fn(&str) -> String;
     impl<T: for<'b> Fn(&'b str) -> String> HyperlinkCommits<T> {
@@ -53,7 +53,12 @@ pub fn format_commit_line_with_osc8_commit_hyperlink<'a>(
             result.push_str(&line[prev_pos..m.start()]);
             let commit = &line[m.start()..m.end()];
             // Do not link numbers, require at least one non-decimal:
-            if commit.contains(|c| matches!(c, 'a'..='f')) {
+            // (and nothing inside an escape sequence or a hyperlink the line brings along)
+            let protected = self
+                .1
+                .iter()
+                .any(|&(start, end)| m.start() < end && start < m.end());
+            if !protected && commit.contains(|c| matches!(c, 'a'..='f')) {
                 result.push_str(&format_osc8_hyperlink(&self.0(commit), commit));
             } else {
                 result.push_str(commit);
@@ -75,20 +80,55 @@ pub fn format_commit_line_with_osc8_commit_hyperlink<'a>(
     if let Some(commit_link_format) = &config.hyperlinks_commit_link_format {
         let mut matches = COMMIT_HASH_REGEX.find_iter(line);
         if let Some(first_match) = matches.next() {
-            let result =
-                HyperlinkCommits(|commit_hash| commit_link_format.replace("{commit}", commit_hash))
-                    .with_input(line, &first_match, &mut matches);
+            let result = HyperlinkCommits(
+                |commit_hash| commit_link_format.replace("{commit}", commit_hash),
+                protected_ranges(line),
+            )
+            .with_input(line, &first_match, &mut matches);
             return Cow::from(result);
         }
     } else if let Some(repo) = remote_from_config(&config.git_config()) {
         let mut matches = COMMIT_HASH_REGEX.find_iter(line);
         if let Some(first_match) = matches.next() {
-            let result = HyperlinkCommits(|commit_hash| repo.format_commit_url(commit_hash))
-                .with_input(line, &first_match, &mut matches);
+            let result = HyperlinkCommits(
+                |commit_hash| repo.format_commit_url(commit_hash),
+                protected_ranges(line),
+            )
+            .with_input(line, &first_match, &mut matches);
             return Cow::from(result);
         }
     }
     Cow::from(line)
+}
+
+/// Byte ranges of `line` in which no hyperlink may be inserted: escape sequences, and text which
+/// is a hyperlink already.
+fn protected_ranges(line: &str) -> Vec<(usize, usize)> {
+    let mut ranges = Vec::new();
+    if !line.contains('\x1b') {
+        return ranges;
+    }
+    let mut link_start = None;
+    let mut i = 0;
+    for (element, is_ansi) in crate::ansi::ansi_strings_iterator(line) {
+        let j = i + element.len();
+        if is_ansi {
+            if let Some(link) = element.strip_prefix("\x1b]8;") {
+                let url = link.split_once(';').map(|(_, url)| url).unwrap_or("");
+                if !url.trim_end_matches(['\x07', '\x1b']).is_empty() {
+                    link_start.get_or_insert(j);
+                } else if let Some(start) = link_start.take() {
+                    ranges.push((start, i));
+                }
+            }
+            ranges.push((i, j));
+        }
+        i = j;
+    }
+    if let Some(start) = link_start {
+        ranges.push((start, line.len()));
+    }
+    ranges
 }
 
 /// Create a file hyperlink, displaying `text`.
